@@ -101,6 +101,10 @@ func c02GuardAtoms(cond ast.Expr) []string {
 			atoms = append(atoms, "prev-non-nil")
 		case t == "previous.NumOfRef()==0":
 			atoms = append(atoms, "prev-ref-zero")
+		case t == "s.closed.CompareAndSwap(false,true)":
+			atoms = append(atoms, "closed-cas")
+		case t == "s.closed.Load()":
+			atoms = append(atoms, "closed-load")
 		case t == "newVal==0":
 			atoms = append(atoms, "dec-zero")
 		default:
@@ -309,7 +313,7 @@ func init() {
 				return c02Events(fd, c02Keep("mutex.Lock", "defer:mutex.Unlock", "cache.Get", "entry.release"))
 			}},
 			{"cacheGetReaderCalls", cache, "storeCache", "GetReader", func(fd *ast.FuncDecl) []string {
-				return c02Events(fd, c02Keep("mutex.Lock", "defer:mutex.Unlock", "cache.Get", "entry.retain", "newMMapStoreReaderFunc", "cache.Add"))
+				return c02Events(fd, c02Keep("mutex.Lock", "defer:mutex.Unlock", "mutex.Unlock", "cache.Get", "entry.retain", "newMMapStoreReaderFunc", "cache.Add"))
 			}},
 			{"cacheCleanupGuard", cache, "storeCache", "Cleanup", c02CleanupGuard},
 		}
@@ -357,6 +361,47 @@ func init() {
 			ok := deferred && len(before) == 0
 			fmt.Fprintf(&sb, "\n/-- does CommitFamilyEditLog take its snapshot and clone the version inside vs.mutex? -/\n")
 			fmt.Fprintf(&sb, "def commitCloneUnderLock : Bool := %v\n", ok)
+		}
+		// snapshot.Close guard shape; newTableBuilder order; GetReader critical section
+		{
+			fd, err := need(snap, "snapshot", "Close")
+			if err != nil {
+				return "", err
+			}
+			st := c02Stmts(fd)
+			def("snapshotCloseSteps", st)
+			cas := len(st) >= 4 && st[0] == "if(closed-cas)" && st[len(st)-1] == "endif"
+			fmt.Fprintf(&sb, "\n/-- is the whole of snapshot.Close inside `if s.closed.CompareAndSwap(false, true)`? -/\n")
+			fmt.Fprintf(&sb, "def closeIsCAS : Bool := %v\n", cas)
+			fd, err = need(fam, "family", "newTableBuilder")
+			if err != nil {
+				return "", err
+			}
+			ev := c02Events(fd, c02Keep("store.nextFileNumber", "f.addPendingOutput", "table.NewStoreBuilder"))
+			ip, ic := -1, -1
+			for i, e := range ev {
+				if e == "f.addPendingOutput" && ip < 0 {
+					ip = i
+				}
+				if e == "table.NewStoreBuilder" && ic < 0 {
+					ic = i
+				}
+			}
+			fmt.Fprintf(&sb, "\n/-- does newTableBuilder mark the number pending before it creates the table file? -/\n")
+			fmt.Fprintf(&sb, "def pendBeforeCreate : Bool := %v\n", ip >= 0 && ic >= 0 && ip < ic)
+			fd, err = need(cache, "storeCache", "GetReader")
+			if err != nil {
+				return "", err
+			}
+			ev = c02Events(fd, c02Keep("mutex.Lock", "defer:mutex.Unlock", "mutex.Unlock", "newMMapStoreReaderFunc"))
+			one := len(ev) >= 3 && ev[0] == "mutex.Lock" && ev[1] == "defer:mutex.Unlock"
+			for _, e := range ev[1:] {
+				if e == "mutex.Lock" || e == "mutex.Unlock" {
+					one = false
+				}
+			}
+			fmt.Fprintf(&sb, "\n/-- is storeCache.GetReader (lookup, open, retain, add) one critical section of the cache mutex? -/\n")
+			fmt.Fprintf(&sb, "def getReaderOneSection : Bool := %v\n", one)
 		}
 		// snapshot.FindReaders: its calls, and what its error branch (`if err != nil` inside the loop) calls
 		{
